@@ -29,6 +29,21 @@ Definition line_kind (l : str) : N :=      (* 0 token line, 1 EOS, 2 malformed *
   | _ => 2
   end.
 
+(** the documented reading of a corpus, independent of the parser model: token lines grouped by
+    EOS lines, sentences whose text is empty dropped, lines after the last EOS ignored *)
+Fixpoint spec_examples (ls : list str) (cur : list word) : list (list word) :=
+  match ls with
+  | [] => []
+  | l :: rest =>
+      match split_on ch_tab l with
+      | [s; f] => spec_examples rest (cur ++ [(s, f)])
+      | _ => match concat (map fst cur) with
+             | [] => spec_examples rest []
+             | _ => cur :: spec_examples rest []
+             end
+      end
+  end.
+
 Definition c19_oracle (c : c19case) : bool :=
   let ls := lines (c9_text c) in
   let malformed := existsb (fun l => (line_kind l =? 2)) ls in
@@ -37,6 +52,7 @@ Definition c19_oracle (c : c19case) : bool :=
   | Err => malformed                                               (* errors only for malformed lines *)
   | Ok exs =>
       negb malformed
+      && exs_eqb exs (spec_examples ls [])
       (* sentences with no text are dropped, every other one is kept with its lines in order *)
       && forallb (fun ex => match concat (map fst ex) with [] => false | _ => true end) exs
       (* writing and re-parsing gives the same examples; the written text is the token lines + EOS *)
